@@ -94,9 +94,25 @@ func execRegExp(this *object, target string) (bool, []int) {
 		index = 0
 	}
 
+	// lastIndex counts UTF-16 code units (15.10.6.2), target is UTF-8: find the byte offset.
 	var result []int
-	if 0 > index || index > int64(len(target)) {
+	if 0 > index || index > int64(utf16Length(target)) {
 	} else {
+		units := int64(0)
+		for offset, chr := range target {
+			if units >= index {
+				index = int64(offset)
+				units = -1
+				break
+			}
+			units++
+			if chr >= 0x10000 {
+				units++
+			}
+		}
+		if units != -1 {
+			index = int64(len(target))
+		}
 		result = this.regExpValue().regularExpression.FindStringSubmatchIndex(target[index:])
 	}
 
@@ -106,7 +122,7 @@ func execRegExp(this *object, target string) (bool, []int) {
 	}
 
 	startIndex := index
-	endIndex := int(lastIndex) + result[1]
+	endIndex := utf16Length(target[:int(index)+result[1]])
 	// We do this shift here because the .FindStringSubmatchIndex above
 	// was done on a local subordinate slice of the string, not the whole string
 	for index, offset := range result {
